@@ -265,6 +265,9 @@ def print_assumptions(prop_file, lock=True):
 
 def run_model(component, lines, timeout=600):
     binp = os.path.join(OCAML, 'bin', component)
+    lines = list(lines)
+    if not lines:
+        return []
     data = '\n'.join(lines) + '\n'
     p = subprocess.run([binp], input=data, stdout=subprocess.PIPE, stderr=subprocess.PIPE,
                        text=True, timeout=timeout)
